@@ -181,6 +181,13 @@ theorem xlsb_formula_decoder_no_panic (ctx : Ptg.Ctx) (rgce : Ptg.Bytes) (m : St
 theorem xlsb_formula_decoder_terminates (ctx : Ptg.Ctx) (rgce : Ptg.Bytes) :
     Ptg.parseFormulaXlsb ctx rgce ≠ .outOfFuel := C14.parseFormulaXlsb_fuel ctx rgce
 
+/-- the only recursive arm of the xlsb decoder (PtgMemFunc / PtgMemArea sub-expressions) never goes deeper
+    than `MAX_FORMULA_NESTING` = 64 calls, whatever the bytes (after /repo f4b2b00; before it a 10000-level
+    formula overflowed the stack) -/
+theorem xlsb_formula_decoder_depth_bounded (ctx : Ptg.Ctx) (rgce : Ptg.Bytes) :
+    Ptg.depthUsed ctx 0 rgce.length rgce ⟨[], []⟩ ≤ Ptg.maxMemDepth ∧ Ptg.maxMemDepth = 64 :=
+  C14.parseFormulaXlsb_depth_bounded ctx rgce
+
 theorem xls_defined_name_decoder_no_panic (rgce : Ptg.Bytes) (m : String) :
     Ptg.definedNameXls rgce ≠ .panic m := C14.definedNameXls_no_panic rgce m
 
